@@ -35,6 +35,20 @@ func TestC07(t *testing.T) {
 			}
 		}
 	}
+	// the known race of C07_recv_refuted, replayed (free-running inside the step): 40 attempts
+	for i := 0; i < 40; i++ {
+		if want(idx) {
+			runCwScenario(t, idx, "c07-race", c07RaceScenario([]string{"Bidi", "CStream", "SStream"}[i%3]), em)
+		}
+		idx++
+	}
+}
+
+// c07RaceScenario: the witness of C07_recv_refuted (cancel, then SendMsg without yielding, then RecvMsg)
+func c07RaceScenario(kind string) cwScenario {
+	return cwScenario{Mode: "e2e", Steps: []Step{{Op: "open", Kind: kind}, {Op: "c2s"}, {Op: "cancelsend", C: 0, B: 33}, {Op: "recv", C: 0},
+		{Op: "drain"}, hop(0, HOp{Op: "await"}), hop(0, HOp{Op: "return", Ctx: true}), {Op: "drain"}},
+		Tags: []string{"c07", "kind:" + kind, "race:cancel-then-send", "sig:recv-closed-after-cancel-send"}}
 }
 
 // TestC11: abandoned streams (handler returns early / caller cancels or stops reading / peer over-sends), other
